@@ -4,6 +4,7 @@ package main
 
 import (
 	"fmt"
+	"go/constant"
 	"go/token"
 	"go/types"
 	"sort"
@@ -238,6 +239,84 @@ func checkC07(P *Program, r *Result, tier string) {
 			}
 		}
 	}
+	// ---------- GET-TIGHT: the value store's lookup does not refuse a record that is there ----------
+	// every length check of StrStore.Get (and what it calls on the same receiver) that answers "nothing there" asks
+	// for no more bytes than are then read: an empty value stored last ends exactly at the end of the buffer
+	if gt := P.Method(relStrstore, "StrStore", "Get"); gt != nil {
+		nget := 0
+		for _, fn := range P.reachable([]*ssa.Function{gt}, func(f *ssa.Function) bool { return f.Pkg != gt.Pkg }) {
+			if fn.Blocks == nil || len(fn.Params) == 0 || !types.Identical(fn.Params[0].Type(), gt.Params[0].Type()) {
+				continue
+			}
+			fa := run.A.fa(fn)
+			var carrier ssa.Value
+			for _, b := range fn.Blocks {
+				for _, in := range b.Instrs {
+					if ld, ok := in.(*ssa.UnOp); ok && ld.Op == token.MUL && recvFieldOf(fn, ld.X) == "buf" && carrier == nil {
+						carrier = ld
+					}
+				}
+			}
+			if carrier == nil {
+				continue
+			}
+			bd := fa.sliceDesc(carrier)
+			if bd == nil {
+				continue
+			}
+			nres := fn.Signature.Results().Len()
+			failRet := func(ret *ssa.Return) bool {
+				last := ret.Results[nres-1]
+				if c, ok := last.(*ssa.Const); ok && c.Value != nil {
+					if c.Value.Kind() == constant.Bool {
+						return !constant.BoolVal(c.Value)
+					}
+					if c.Value.Kind() == constant.String && nres == 1 {
+						return constant.StringVal(c.Value) == ""
+					}
+				}
+				return false
+			}
+			succRet := func(ret *ssa.Return) bool { return !failRet(ret) }
+			justifies := func(in ssa.Instruction, need *Lin) bool {
+				blk := in.Block()
+				ext := func(v ssa.Value, n *Lin) bool {
+					d := fa.sliceDesc(v)
+					if d == nil || !isLoadOfField(fn, d.Root, "buf") {
+						return false
+					}
+					return fa.prove(ineqLE(need, d.Off.add(n)), blk, rootCtx)
+				}
+				switch x := in.(type) {
+				case *ssa.UnOp:
+					if x.Op != token.MUL {
+						return false
+					}
+					// *(*T)(unsafe.Pointer(&buf[i])) or buf[i]
+					addr := x.X
+					for {
+						if cv, ok := addr.(*ssa.Convert); ok {
+							addr = cv.X
+							continue
+						}
+						break
+					}
+					if ia, ok := addr.(*ssa.IndexAddr); ok {
+						return ext(ia.X, fa.expand(ia.Index).addConst(fa.sizeof(deref(x.X.Type()))))
+					}
+				case *ssa.Slice:
+					if x.High != nil {
+						return ext(x.X, fa.expand(x.High))
+					}
+				}
+				return false
+			}
+			nget += neededWalkF(P, r, "GET-TIGHT", fa, fn, linConst(0), bd.Len, justifies, failRet, succRet)
+		}
+		if nget == 0 {
+			r.fatal("no length check found in the value store's lookup")
+		}
+	}
 	// ---------- SLOT-OWN: an item's slot is the hash of the item's own key ----------
 	// the slot is set where the item is created (in the literal that is appended, from the key whose bytes are stored
 	// with it), and afterwards only reduced (slot = slot % n on the same item). A later "re-hash" of items[i] from a
@@ -402,8 +481,12 @@ func checkC07(P *Program, r *Result, tier string) {
 		if lenStore != nil && cp != nil {
 			ia, _ := lenStore.Addr.(*ssa.Convert).X.(*ssa.Convert).X.(*ssa.IndexAddr)
 			dst, src := fa.sliceDesc(cp.Common().Args[0]), fa.sliceDesc(cp.Common().Args[1])
-			if ia != nil && dst != nil && src != nil && isLoadOfField(ld, ia.X, "buf") && isLoadOfField(ld, dst.Root, "buf") {
-				off := fa.expand(ia.Index)
+			var iaBase *SliceDesc
+			if ia != nil {
+				iaBase = fa.sliceDesc(ia.X) // the buffer itself, or a window of it kept as an advancing sub-slice
+			}
+			if ia != nil && iaBase != nil && dst != nil && src != nil && isLoadOfField(ld, iaBase.Root, "buf") && isLoadOfField(ld, dst.Root, "buf") {
+				off := iaBase.Off.add(fa.expand(ia.Index))
 				// stored length = uint32(len(element)) of the element that is copied
 				lenOK := false
 				if cv, isCv := lenStore.Val.(*ssa.Convert); isCv {
